@@ -24,6 +24,7 @@ in C08 to be the maximum matching number), the same function the driver runs.
 | "(too few servers, full … servers)": whether the selector could have reached a happier layout | not covered here: the query rounds of `Tahoe2ServerSelector` are modelled only through their result (`pre`, `alloc`); optimality of the placement is C07; correspondence + monitor only |
 | "leaves no partial shares visible to readers" | `failure_leaves_no_partial_share` (every bucket writer got `abort`; any share whose remote `close` was or may still be issued — hence the only ones a server can make visible — received every byte, for every order of answers including those after the error); that `abort` deletes an unfinished share and only `close` publishes is C22 |
 | "the shares it … found": the pre-existing shares counted are complete, readable shares | model input assumption, not a theorem: `pre` = shares reported by `get_buckets` / `alreadygot`, which a storage server gives for final (closed) shares only (C22 `visible_iff_closed`); so `success_layout_has_matching` is over complete shares. Tied by the monitor on concurrent uploads of one file (an upload stalled before close, a second one meanwhile, then timeout / disconnect / failure / completion of the first): every share found or placed must be complete in the server's final share directory when success is reported, the real layout's happiness ≥ threshold, the cap readable |
+| the success verdict is a function of the layout that is actually pushed | `success_needs_happy_pushed_allocation` (the allocation handed to `set_shareholders` itself passes the test and has one writer per share number), `assertion_iff_duplicate_allocation` (a tracker set with a doubly allocated share number is never pushed: the unchanged code asserts); the selector's rounds that produce the tracker set are not modelled — the monitor recomputes happiness of every reported success from the share files on disk (tight grids with a server failing `allocate_buckets`) |
 | quantifier: "failures injected on any allocate/write/close call, and every response ordering" | all theorems quantify over every `pre`, `alloc`, failure script, close-answer order and late-answer tail; allocate-time faults enter only through (`pre`, `alloc`) — monitor only |
 -/
 namespace Tahoe.C06
@@ -231,6 +232,28 @@ theorem unhappy_selection_fails (hp : Sharemap → Nat) (happy : Nat) (pre : Sha
   simp [upload, h]
 
 example : (upload (fun m => m.length) 2 [] [(0, 10), (1, 11), (2, 12)] [[1], [0]] []).outcome = .unhappy := by decide
+
+/-- **the verdict is taken on the layout that is pushed**: `alloc` is the tracker set handed to
+`CHKUploader.set_shareholders`, i.e. the bucket writers the encoder actually pushes to.  Success requires that
+this very allocation (with the pre-existing shares) passes the happiness test and has one writer per share
+number — a happiness value computed on any other layout (e.g. before duplicates were released) does not count. -/
+theorem success_needs_happy_pushed_allocation (hp : Sharemap → Nat) (happy : Nat) (pre : Sharemap)
+    (alloc : List (Nat × Nat)) (phases : List (List Nat)) (closeEvs : List CloseEv) (placed : List Nat)
+    (sm : Sharemap) (h : (upload hp happy pre alloc phases closeEvs).outcome = .success placed sm) :
+    happy ≤ hp (mergeTrackers pre alloc) ∧ (shnums alloc).Nodup := by
+  refine ⟨?_, ((upload_spec hp happy pre alloc phases closeEvs).1 placed sm h).2.2.2.2.2.2⟩
+  apply Nat.le_of_not_lt
+  intro hlt
+  rw [unhappy_selection_fails hp happy pre alloc phases closeEvs hlt] at h
+  cases h
+
+/- the layouts of seeded change C06-e (7 servers, happy = 6, server 0 fails allocate_buckets): the tracker
+   set with doubly allocated shares 2,3,4,5 has happiness 6 and the unchanged code asserts on it; the set left
+   after releasing the duplicates (servers 1,2,3,6) has happiness 4: pushed as it is, it must be refused. -/
+example : (upload soh 6 [] [(0, 2), (1, 1), (2, 1), (2, 5), (3, 3), (3, 5), (4, 3), (4, 6), (5, 4), (5, 6)] [] []).outcome
+    = .assertion := by decide +kernel
+example : (upload soh 6 [] [(0, 2), (1, 1), (2, 1), (3, 3), (4, 6), (5, 6)] [] []).outcome = .unhappy := by
+  decide +kernel
 
 /-- the only exit that is neither success nor the unhappiness error: `CHKUploader.set_shareholders`
 asserts when a happy selection allocated one share number on two servers (DESIGN 8.9; the statement is
